@@ -163,6 +163,15 @@ let handle () =
     (* thy <ini> <fin> <fuel> <nsteps> { <nroots> { <k> <raw> } } : the body theory model over several horizons; raw formulas are built
        through the regenerated create_formula table; answer: per horizon the events of the log and the pending list *)
     let ini = nat () in let fin = nat () in let fuel = nat () in
+    let rec rpath () =
+      match next () with
+      | "pa" -> PAtom (nat ())
+      | "pt" -> PTrue
+      | "pca" -> PCheckA (nat ())
+      | "pcc" -> PCheckC (int () <> 0)
+      | "p1" -> let o = coq_string (next ()) in let p = rpath () in POp1 (o, p)
+      | "p2" -> let o = coq_string (next ()) in let p = rpath () in let q = rpath () in POp2 (o, p, q)
+      | s -> failwith ("rpath " ^ s) in
     let rec raw () =
       match next () with
       | "a" -> RAtom (nat ())
@@ -170,6 +179,7 @@ let handle () =
       | "o1" -> let o = coq_string (next ()) in let x = raw () in ROp1 (o, x)
       | "o2" -> let o = coq_string (next ()) in let x = raw () in let y = raw () in ROp2 (o, x, y)
       | "on" -> let o = coq_string (next ()) in let n = nat () in let y = raw () in ROpN (o, n, y)
+      | "del" -> let o = coq_string (next ()) in let p = rpath () in let x = raw () in RDel (o, p, x)
       | s -> failwith ("raw " ^ s) in
     let bad = ref false in
     let steps = list (fun () -> list (fun () -> let k = nat () in let r = raw () in
